@@ -47,6 +47,9 @@ class Handler:
             if isinstance(n, ast.Assign) and isinstance(n.targets[0], ast.Subscript) and norm(n.targets[0].value) == "self.provenance" \
                     and isinstance(n.value, ast.Constant):
                 self.prov.append((norm(n.targets[0].slice), n.value.value, self._guards(n)))
+            # the non-overwriting form: self.provenance.setdefault(<name>, <label>) labels the name unless it already has a provenance
+            if isinstance(n, ast.Call) and norm(n.func) == "self.provenance.setdefault" and len(n.args) == 2 and isinstance(n.args[1], ast.Constant) and not n.keywords:
+                self.prov.append((norm(n.args[0]), n.args[1].value, self._guards(n)))
 
 
 class Collector:
